@@ -11,10 +11,13 @@ def probe_menu(w):
     return [step.probed(c) for c in (
         step.StoreObj(0, 1), step.Tag(0, 1), step.Delete(0), step.Retrieve(0), step.HexDigest(0, "md5", "md5"),
         step.StoreMeta(0, 0, None), step.RetrieveMeta(0, None), step.DeleteMeta(0, None, all_docs=True),
-        step.StoreData(1), step.DeleteIfInvalid(1, hashlib.md5(c1).hexdigest(), "md5", len(c1) + 1, True, ", wrong size"))]
+        step.StoreData(1), step.DeleteIfInvalid(1, hashlib.md5(c1).hexdigest(), "md5", len(c1) + 1, True, ", wrong size"),
+        # the instance first serves the *other* pid (the follow-up history then asks about both)
+        step.Retrieve(1), step.RetrieveMeta(1, None), step.HexDigest(1, "sha256", "sha256"), step.StoreObj(1, 0),
+        step.StoreMeta(1, 1, None), step.Delete(1))]
 
 
-PROBE_ARGS = dict(pids=["a", "b"], contents=[C_ONE, C_MULTI], formats=[None], fake_cid=False, sym_dirs=False)
+PROBE_ARGS = dict(pids=[P_A, P_AB], contents=[C_ONE, C_MULTI], formats=[None], fake_cid=False, sym_dirs=False)
 
 
 MINE = {"history:results-depend-on-earlier-calls-on-the-instance", "store-state:dup-line", "store-state:foreign-line", "store-state:unterminated-line", "store-state:pid-ref-garbled", "store-state:tmp-residue", "store-state:delete-marker-residue", "store-state:foreign-file", "bookkeeping-not-exact", "result-class", "model:bind", "model:obj",
